@@ -119,6 +119,25 @@ Definition l_add_accept (n r : Z) (sat : bool) (a b c : Z) : bool :=
       end
   end.
 
+
+(* ---- order: by (sign class, exponent); negative values order by decreasing exponent; NaN is unordered and unequal to everything ---- *)
+Definition l_key (c : lcls) : option (Z * Z) :=
+  match c with
+  | LNaN => None
+  | LZero => Some (0, 0)
+  | LVal s E => Some (if s then (-1, - E) else (1, E))
+  end.
+Definition key_lt (p q : Z * Z) : bool := Z.ltb (fst p) (fst q) || (Z.eqb (fst p) (fst q) && Z.ltb (snd p) (snd q)).
+Definition key_eq (p q : Z * Z) : bool := Z.eqb (fst p) (fst q) && Z.eqb (snd p) (snd q).
+Definition l_rel (n : Z) (f : Z * Z -> Z * Z -> bool) (a b : Z) : bool :=
+  match l_key (l_decode n a), l_key (l_decode n b) with Some p, Some q => f p q | _, _ => false end.
+Definition l_lt n := l_rel n key_lt.
+Definition l_eq n := l_rel n key_eq.
+Definition l_le n := l_rel n (fun p q => key_lt p q || key_eq p q).
+Definition l_gt n a b := l_lt n b a.
+Definition l_ge n a b := l_le n b a.
+Definition l_ne n a b := negb (l_eq n a b).
+
 Definition judge_lns (cfg : list Z) (op : Z) (args res : list Z) : verdict :=
   let n := nth0 cfg 0 in let r := nth0 cfg 1 in let sat := Z.eqb (nth0 cfg 2) 1 in
   let a := nth0 args 0 in let b := nth0 args 1 in let c := nth0 res 0 in
@@ -130,6 +149,10 @@ Definition judge_lns (cfg : list Z) (op : Z) (args res : list Z) : verdict :=
   if Z.eqb op OP_div then exact [l_div n sat a b]
       (special || match l_decode n a, l_decode n b with LVal _ Ea, LVal _ Eb => ovf (Ea - Eb) | _, _ => false end) else
   if Z.eqb op OP_neg then exact [l_neg n a] true else
+  let rel (v : bool) := exact [if v then 1 else 0] true in
+  if Z.eqb op OP_eq then rel (l_eq n a b) else if Z.eqb op OP_ne then rel (l_ne n a b) else
+  if Z.eqb op OP_lt then rel (l_lt n a b) else if Z.eqb op OP_le then rel (l_le n a b) else
+  if Z.eqb op OP_gt then rel (l_gt n a b) else if Z.eqb op OP_ge then rel (l_ge n a b) else
   if Z.eqb op OP_add then mkV (Z.eqb (Z.of_nat (length res)) 1 && l_add_accept n r sat a b c) [] true else
   if Z.eqb op OP_sub then mkV (Z.eqb (Z.of_nat (length res)) 1 && l_add_accept n r sat a (l_neg n b) c) [] true else
   mkV false [] false.
